@@ -62,6 +62,22 @@ def check_header(c):
         eq(devs, f"dec.fields.{tag}", obs_header(u), want_obs(c))
         eq(devs, f"dec.repack.{tag}", bytes(u.pack()), want)
         true(devs, f"dec.eq.{tag}", u == h, "unpack(pack(h)) != h")
+    # histories: a header decoded earlier is not disturbed by decoding another one, by the caller reusing its buffer, or by
+    # the caller modifying a buffer pack() returned
+    from .. import cfdp_model as M
+    from ..core import pack_fresh, scribble
+
+    pack_fresh(devs, "hist.pack_returns_fresh_buffer", h.pack, want)
+    buf = bytearray(want + tail)
+    u1 = H.PduHeader.unpack(buf)
+    scribble(buf)
+    oc = {**M.other_conf(c), "pdu_type": 1 - c["pdu_type"], "seg_meta": (1 - c["seg_meta"]) if c["pdu_type"] == 0 else 0, "dlen": (c["dlen"] + 0x0101) & 0xFFFF}
+    want_b = R.header(oc, oc["pdu_type"], oc["dir"], oc["seg_meta"], oc["dlen"])
+    u2 = H.PduHeader.unpack(want_b)
+    eq(devs, "hist.other_header.fields", obs_header(u2), want_obs(oc))
+    eq(devs, "hist.fields_after_another_header_was_decoded", obs_header(u1), want_obs(c))
+    eq(devs, "hist.repack_after_another_header_was_decoded", bytes(u1.pack()), want)
+    eq(devs, "hist.constructed_after_another_header_was_decoded", bytes(h.pack()), want)
     # every strict prefix is refused
     for n in range(hl):
         expect_raise(devs, "prefix", H.PduHeader.unpack, want[:n], accept=(BytesTooShortError,))
